@@ -304,7 +304,20 @@ type Explorer struct {
 // visit returning false stops the exploration.
 func (x *Explorer) Explore(run func(c *Ctx), visit func(c *Ctx) bool) ExploreStats {
 	var st ExploreStats
-	levels := [][][]int{{{}}}
+	// The frontier holds one node per unexplored alternative: the pick sequence of the
+	// execution that discovered it (shared by all its alternatives), the position and the
+	// alternative. (Storing a full prefix per alternative costs gigabytes on executions
+	// with thousands of choice points.) maxFrontier bounds it; beyond that the
+	// exploration is reported as capped.
+	type node struct {
+		parent []int
+		i, alt int
+	}
+	const maxFrontier = 12_000_000
+	const maxCache = 3_000_000
+	frontier := 0
+	incompleteFrom := 1 << 30
+	levels := [][]node{{{alt: -1}}}
 	st.BoundCompleted = -1
 	st.States = 1
 	stop := false
@@ -332,15 +345,24 @@ func (x *Explorer) Explore(run func(c *Ctx), visit func(c *Ctx) bool) ExploreSta
 					return false
 				}
 			}
-			cache[sig] = append(cache[sig], rem)
+			if len(cache) < maxCache {
+				cache[sig] = append(cache[sig], rem)
+			}
 			return true
 		}
 	}
 	for lvl := 0; lvl < len(levels) && !stop; lvl++ {
 		for len(levels[lvl]) > 0 && !stop {
 			q := levels[lvl]
-			prefix := q[len(q)-1]
+			nd := q[len(q)-1]
 			levels[lvl] = q[:len(q)-1]
+			frontier--
+			prefix := []int{}
+			if nd.alt >= 0 {
+				prefix = make([]int, nd.i+1)
+				copy(prefix, nd.parent[:nd.i])
+				prefix[nd.i] = nd.alt
+			}
 			if (x.MaxExec > 0 && st.Executions >= x.MaxExec) || (x.Stop != nil && x.Stop()) {
 				st.Capped = true
 				stop = true
@@ -367,6 +389,7 @@ func (x *Explorer) Explore(run func(c *Ctx), visit func(c *Ctx) bool) ExploreSta
 				break
 			}
 			var used cost
+			var picks []int
 			for i, ch := range c.Trace {
 				if i >= len(prefix) {
 					st.PerKind[ch.Kind]++
@@ -376,16 +399,22 @@ func (x *Explorer) Explore(run func(c *Ctx), visit func(c *Ctx) bool) ExploreSta
 						if !x.Bounds.allows(nc) {
 							break
 						}
-						np := make([]int, i+1)
-						for j := 0; j < i; j++ {
-							np[j] = c.Trace[j].Pick
+						if frontier >= maxFrontier {
+							st.Capped = true
+							if t := nc.total(); t < incompleteFrom {
+								incompleteFrom = t // this and all later levels lose alternatives
+							}
+							break
 						}
-						np[i] = alt
+						if picks == nil {
+							picks = c.Picks()
+						}
 						t := nc.total()
 						for len(levels) <= t {
 							levels = append(levels, nil)
 						}
-						levels[t] = append(levels[t], np)
+						levels[t] = append(levels[t], node{picks, i, alt})
+						frontier++
 						st.States++
 						st.Transitions++
 					}
@@ -395,7 +424,7 @@ func (x *Explorer) Explore(run func(c *Ctx), visit func(c *Ctx) bool) ExploreSta
 				}
 			}
 		}
-		if !stop {
+		if !stop && lvl < incompleteFrom {
 			st.BoundCompleted = lvl
 		}
 	}
